@@ -20,6 +20,20 @@ CLAIMED = {
          "that a FRESH copy shows the same content as its original is established by correspondence only (not proved); "
          "popped elements are taken from the implementation.",
     technique="Coq refinement/invariant proof over a heap model of cached views + lock-step correspondence (vm_compute)", ref='5 C07'),
+ 'C09': dict(
+    text="Theorems over the generic comparison scheme shared by all __cmp__ implementations (rule tables per element kind; the "
+         "cosmetic attribute lists and the serialised attribute keys are re-read from the source on every run): for kinds "
+         "without children reflexivity, antisymmetry, equal => same version and attributes, and composition of accepted "
+         "upgrades (incl. regex-hard and enum extension); for properties and event types reflexivity, antisymmetry and "
+         "equal => same parts under well-formedness; the comparison covers every serialised attribute (reflection over the "
+         "extracted lists); the pre-fix attachment rule is refuted. Tied to the code by comparing real element instances "
+         "(__cmp__, ==, !=, <, >) for all ordered pairs of variants of an ontology (every single edit at 3 versions, compound "
+         "edits) with the model, and by an oracle for reflexivity, antisymmetry, equal=>identical XML, composition on all "
+         "triples, and purity.",
+    note=TB + "composition (transitivity) for properties and event types is checked by the oracle on triples, not proved; "
+         "validate() of operands is assumed to pass; restricted-attribute rules are hand-written (correspondence-checked); "
+         "T1 translator harness/translate/c09.py.",
+    technique="Coq proof over a generic comparison model with source-extracted rule tables + exhaustive pair correspondence", ref='5 C09'),
  'C14': dict(
     text="Theorems over the dispatch model for all regex semantics, registration lists and documents (exact callback log, "
          "registry stability, counters, ontology-before-event), refutation theorems for the pre-fix behaviour; model tied to "
